@@ -83,6 +83,7 @@ fn sent_size(ap: &AP, idw: usize) -> usize {
 
 impl Observer for StoreModel {
     fn on_step(&mut self, w: &World, pre: &Tracker, pre_app: &App, st: &Step) -> R {
+        check_wire("C06", st, w.t.cfg.idw)?;
         if st.panic.is_some() {
             return Ok(());
         }
